@@ -615,7 +615,7 @@ fn iter_array(
 ) -> Vec<ValueCow<'_>> {
     let offset = ::std::cmp::min(offset, range.len());
     let limit = limit
-        .map(|l| ::std::cmp::min(l, range.len()))
+        .map(|l| ::std::cmp::min(l, range.len() - offset))
         .unwrap_or_else(|| range.len() - offset);
     range.drain(0..offset);
     range.resize(limit, Value::Nil.into());
